@@ -318,7 +318,11 @@ class Interp(ExprMixin, WhileMixin):
             else:
                 raise _Raise(self.make_exc("builtins.TypeError"), self.cur_where)
         if a.kwarg:
-            env[a.kwarg.arg] = PyDict({k: v for k, v in kwargs.items()})
+            kd = PyDict({("c", k): v for k, v in kwargs.items() if k != "**"})
+            kd.created_in = self._frame_id()  # type: ignore[attr-defined]
+            if "**" in kwargs:
+                kd.opaque_keys.append((Sym("dictunpack"), kwargs["**"]))
+            env[a.kwarg.arg] = kd
         elif kwargs:
             self.event("call_arity", func=getattr(fn, "name", "lambda"), unexpected_kw=sorted(kwargs))
             raise _Raise(self.make_exc("builtins.TypeError"), self.cur_where)
@@ -357,7 +361,12 @@ class Interp(ExprMixin, WhileMixin):
             rhs = self.eval(st.value, env, module)
             if isinstance(cur, (PyList, AbsList)) and isinstance(st.op, ast.Add):
                 self.list_extend(cur, rhs)
-                self.event("mutate", target=_describe(cur), op="+=")
+                # `lst += x` extends in place, exactly like lst.extend(x): same ownership classification
+                if getattr(cur, "created_in", None) is None:
+                    self.event("mutate", target=_describe(cur), op="+=")
+                else:
+                    self.event("list_mutation", target=_describe(cur), op="extend", created_in=getattr(cur, "created_in", None),
+                               frame=self._frame_id())
                 v = cur
             else:
                 v = self.binop(st.op, cur, rhs, module, st)
